@@ -4,6 +4,7 @@ import importlib, json, os, sys
 ROOT = os.path.dirname(os.path.dirname(os.path.abspath(__file__)))
 sys.path.insert(0, '/repo'); sys.path.insert(1, ROOT)
 NA = {
+    'C07': 'printing and parsing are string computations through Lark LALR tables and re lexing: every input must be concrete, nothing stays symbolic, and the only oracle is structural equality of the re-parsed term, so a check would be enumeration of concrete runs, not solver-based checking (DESIGN sections 3/C07 and 9.1); the print/parse obligations of the calculator and the while language, where the re-parsed object has a solver-decidable meaning, are checked under C19 and C20',
     'C14': 'quantifies over reachable proof states of recorded library proofs and compares two concrete code paths (search vs apply); no scalar input to make symbolic and no semantic statement a solver can decide (DESIGN section 4)',
 }
 checks = []
